@@ -299,6 +299,8 @@ def run(ctx):
     # every formatter function against its reviewed emission skeleton
     import emit as _emit
     _emit.rule_F_SKELETON_ALL(ctx)
+    import lskel as _lskel
+    _lskel.rule_L_SKELETON(ctx, which=('lexical',), floor=10)
     ctx.undecided = ["kind(parse(format(v))) = kind(v) for every value (runs into value-dependent parsing, see C01)"]
     ctx.assumptions = ["Vec::is_empty / matches! semantics of std"]
     ctx.trusted = ["rustc HIR/MIR", "mirfacts driver", "python rule layer"]
